@@ -275,3 +275,199 @@ def mer_vcs(ctx):
     if not ctx.quick:
         out += [mer_vc(1, 3, 1, 2, r3, bf, True, "mean", True) for r3 in (False, True) for bf in (False, True)]
     return out
+
+
+# ---- P rung: error_rate (return_mistakes path of _string_matching) for SYMBOLIC shapes (R, H, N) ------------------------------------
+def p_vcs(ctx=None):
+    """C02.P.edits_between_fewest_and_most. The real `error_rate` -> `_string_matching(return_mistakes=True)` over tensors of symbolic
+    shape. Spec: D = Wagner-Fischer table; Emin / Emax = fewest / most edits among minimum-cost alignments, used only through
+        Emin(r, j) = Emax(r, j) = r + j                  when r = 0 or j = 0
+        move m is optimal at (r, j)  ->  Emin(r, j) <= Emin(pred_m) + e_m  and  Emax(r, j) >= Emax(pred_m) + e_m
+    (consequences of their definition as min / max over the optimal moves; e_m = 1 for an insertion or deletion, [tokens differ] for a
+    substitution). Two nested invariants for a skolem batch element n0:
+      outer, after k hypothesis positions:   FORALL r <= R.  row[r] = D(r, min(k, hyp_len))  and  Emin <= mistakes[r] <= Emax there
+      inner (the sequential deletion pass), before reference position i:
+            FORALL r < i.  row[r], mistakes[r] final for column k + 1;   FORALL r >= i.  row[r], mistakes[r] as on entry to the pass
+    Result: Emin(ref_len, hyp_len) <= error count <= Emax(ref_len, hyp_len); with norm, divided by the reference length
+    (empty reference: 1 if the hypothesis is not empty, else 0)."""
+    from vf.pyvc import symtensor as stn
+    from vf.pyvc.interp import LoopSpec, PathAbort
+
+    R, H, N, N0, R0 = z3.Ints("R H N n0 r0")
+    HL0, RL0 = z3.Ints("hyp_len_n0 ref_len_n0")
+    REF = z3.Function("ref", z3.IntSort(), z3.IntSort(), z3.IntSort())
+    HYP = z3.Function("hyp", z3.IntSort(), z3.IntSort(), z3.IntSort())
+    LR = z3.Function("ref_len", z3.IntSort(), z3.IntSort())
+    LH = z3.Function("hyp_len", z3.IntSort(), z3.IntSort())
+    D = z3.Function("D", z3.IntSort(), z3.IntSort(), z3.IntSort(), z3.RealSort())
+    EMIN = z3.Function("Emin", z3.IntSort(), z3.IntSort(), z3.RealSort())  # for the skolem batch element: (r, j)
+    EMAX = z3.Function("Emax", z3.IntSort(), z3.IntSort(), z3.RealSort())
+    n, r, j = z3.Ints("n r j")
+    mn = lambda a, b: z3.If(a <= b, a, b)
+    differ = lambda rr, jj, nn: REF(rr, nn) != HYP(jj, nn)
+    neqc = lambda rr, jj, nn: z3.If(differ(rr, jj, nn), SUB, z3.RealVal(0))
+    neq1 = lambda rr, jj, nn: z3.If(differ(rr, jj, nn), z3.RealVal(1), z3.RealVal(0))
+    c00 = lambda nn: D(nn, 0, 0) == 0
+    cr0 = lambda nn, rr: z3.Implies(rr >= 1, D(nn, rr, 0) == D(nn, rr - 1, 0) + DEL)
+    c0j = lambda nn, jj: z3.Implies(jj >= 1, D(nn, 0, jj) == D(nn, 0, jj - 1) + INS)
+    crj = lambda nn, rr, jj: z3.Implies(z3.And(rr >= 1, jj >= 1), D(nn, rr, jj) == mn(mn(D(nn, rr, jj - 1) + INS, D(nn, rr - 1, jj - 1) + neqc(rr - 1, jj - 1, nn)), D(nn, rr - 1, jj) + DEL))
+    SPEC = [z3.ForAll([n], c00(n)), z3.ForAll([n, r], cr0(n, r)), z3.ForAll([n, j], c0j(n, j)), z3.ForAll([n, r, j], crj(n, r, j))]
+    SPEC_AT = lambda nn, rr, jj: z3.And(c00(nn), cr0(nn, rr), c0j(nn, jj), crj(nn, rr, jj))
+    e_base = lambda rr, jj: z3.Implies(z3.And(rr >= 0, jj >= 0, z3.Or(rr == 0, jj == 0)), z3.And(EMIN(rr, jj) == z3.ToReal(rr + jj), EMAX(rr, jj) == z3.ToReal(rr + jj)))
+    e_moves = lambda rr, jj: z3.Implies(z3.And(rr >= 1, jj >= 1), z3.And(
+        z3.Implies(D(N0, rr, jj) == D(N0, rr, jj - 1) + INS, z3.And(EMIN(rr, jj) <= EMIN(rr, jj - 1) + 1, EMAX(rr, jj) >= EMAX(rr, jj - 1) + 1)),
+        z3.Implies(D(N0, rr, jj) == D(N0, rr - 1, jj - 1) + neqc(rr - 1, jj - 1, N0), z3.And(EMIN(rr, jj) <= EMIN(rr - 1, jj - 1) + neq1(rr - 1, jj - 1, N0), EMAX(rr, jj) >= EMAX(rr - 1, jj - 1) + neq1(rr - 1, jj - 1, N0))),
+        z3.Implies(D(N0, rr, jj) == D(N0, rr - 1, jj) + DEL, z3.And(EMIN(rr, jj) <= EMIN(rr - 1, jj) + 1, EMAX(rr, jj) >= EMAX(rr - 1, jj) + 1))))
+    ESPEC = [z3.ForAll([r, j], e_base(r, j)), z3.ForAll([r, j], e_moves(r, j))]
+    E_AT = lambda rr, jj: z3.And(e_base(rr, jj), e_moves(rr, jj))
+
+    def make_vc(eos_set, include_eos, batch_first, norm):
+        name = "error_rate[symbolic R,H,N; eos=%s,include_eos=%s,batch_first=%s,norm=%s; unequal costs]" % ("set" if eos_set else "unset", include_eos, batch_first, norm)
+        RLs = (lambda nn: z3.If(LR(nn) == R, R, LR(nn) + 1)) if include_eos else (lambda nn: LR(nn))
+        HLs = (lambda nn: z3.If(LH(nn) == H, H, LH(nn) + 1)) if include_eos else (lambda nn: LH(nn))
+        st = {}  # state shared between the outer and the inner loop contract of one path
+
+        def thunk(I):
+            import pydrobert.torch.functional as F
+
+            I.stubs.update(stn.stubs())
+            st.clear()
+            if batch_first:
+                ref = stn.ST((N, R), lambda b, a: REF(ip.to_z3(a), ip.to_z3(b)), "long")
+                hyp = stn.ST((N, H), lambda b, a: HYP(ip.to_z3(a), ip.to_z3(b)), "long")
+            else:
+                ref = stn.ST((R, N), lambda a, b: REF(ip.to_z3(a), ip.to_z3(b)), "long")
+                hyp = stn.ST((H, N), lambda a, b: HYP(ip.to_z3(a), ip.to_z3(b)), "long")
+            calls = []
+
+            def lens_contract(I2, a, k):
+                tok = a[0]
+                calls.append(tok)
+                L = LR if len(calls) == 1 else LH
+                I2.ex.oblige("lens.called_on_time_major_tensor_dim0", z3.And(z3.BoolVal(a[2] == 0), ip.to_z3(tok.shape[0]) == (R if len(calls) == 1 else H), ip.to_z3(tok.elem(R0, N0)) == (REF if len(calls) == 1 else HYP)(R0, N0)))
+                bound = lambda nn: z3.Implies(z3.And(0 <= nn, nn < N), z3.And(0 <= L(nn), L(nn) <= ip.to_z3(tok.shape[0])))
+                I2.ex.assume(z3.ForAll([n], bound(n)))
+                I2.ex.instance(bound(N0))
+                return stn.ST((N,), lambda a_: L(ip.to_z3(a_)), "long")
+
+            I.contracts["pydrobert.torch._string._lens_from_eos"] = lens_contract
+            I.ex.ghost["any_points"] = {1: [(N0,)], 2: [(0, N0)]}
+            if not eos_set:
+                I.ex.assume(z3.ForAll([n], z3.And(LR(n) == R, LH(n) == H)))
+                I.ex.instance(z3.And(LR(N0) == R, LH(N0) == H))
+            return I.call(F.error_rate, [ref, hyp], dict(eos=EOS if eos_set else None, include_eos=include_eos, norm=norm, batch_first=batch_first, ins_cost=INS, del_cost=DEL, sub_cost=SUB, warn=False))
+
+        val = lambda t, rr: ip.to_z3(t.elem(rr, N0))
+        fin = lambda row, mis, rr, jj: z3.And(val(row, rr) == D(N0, rr, jj), EMIN(rr, jj) <= val(mis, rr), val(mis, rr) <= EMAX(rr, jj))
+        fin_at = lambda row, mis, rr, jj: z3.Implies(z3.And(0 <= rr, rr <= R), fin(row, mis, rr, jj))
+
+        class Outer(LoopSpec):
+            def run(self, I, s, f):
+                row0, mis0 = ip.local(f, "row"), ip.local(f, "mistakes")
+                same = z3.And(ip.to_z3(ip.local(f, "hyp_lens").elem(N0)) == HL0, ip.to_z3(ip.local(f, "ref_lens").elem(N0)) == RL0)
+                I.ex.oblige("dp.lengths_are_spec_lengths", same)
+                I.ex.assume(same)
+                zero = z3.IntVal(0)
+                g_base = fin(row0, mis0, zero, zero)
+                g_step = z3.Implies(z3.And(1 <= R0, R0 <= R, fin(row0, mis0, R0 - 1, zero)), fin(row0, mis0, R0, zero))
+                for x in [SPEC_AT(N0, R0, zero), E_AT(R0, zero), E_AT(zero, zero)] + stn.lin_instances(I, R0 - 1):
+                    I.ex.instance(x)
+                I.ex.oblige("dp.init.base", g_base)
+                I.ex.oblige("dp.init.step", g_step)
+                ROW = stn._fresh("row", z3.IntSort(), z3.IntSort(), z3.RealSort())
+                MIS = stn._fresh("mistakes", z3.IntSort(), z3.IntSort(), z3.RealSort())
+                f.locals["row"] = stn.ST((R + 1, N), lambda a, b: ROW(ip.to_z3(a), ip.to_z3(b)), "float")
+                f.locals["mistakes"] = stn.ST((R + 1, N), lambda a, b: MIS(ip.to_z3(a), ip.to_z3(b)), "float")
+                if I.ex.choose(2) == 0:
+                    k = I.ex.fresh("int", "iter")
+                    I.ex.assume(z3.And(0 <= k, k < H))
+                    rowk, misk = f.locals["row"], f.locals["mistakes"]
+                    jk = mn(k, HL0)
+                    I.ex.assume(z3.ForAll([r], fin_at(rowk, misk, r, jk)))
+                    for rr in (R0, R0 - 1, z3.IntVal(0)):
+                        I.ex.instance(fin_at(rowk, misk, rr, jk))
+                    st.update(k=k, rowk=rowk, misk=misk, jk=jk)
+                    it = I.eval(s.iter, f)
+                    I.ex.oblige("dp.loop.range", z3.And(ip.to_z3(it.lo) == 1, ip.to_z3(it.hi) == H + 1, ip.to_z3(it.step) == 1))
+                    I.assign(s.target, k + 1, f)
+                    I.exec_block(s.body, f)
+                    row1, mis1 = ip.local(f, "row"), ip.local(f, "mistakes")
+                    jn = mn(k + 1, HL0)
+                    goal = z3.Implies(z3.And(0 <= R0, R0 <= R), fin(row1, mis1, R0, jn))
+                    I.ex.oblige("dp.step", goal)
+                    raise PathAbort()
+                I.ex.assume(z3.ForAll([r], fin_at(f.locals["row"], f.locals["mistakes"], r, mn(H, HL0))))
+                I.ex.instance(fin_at(f.locals["row"], f.locals["mistakes"], RL0, mn(H, HL0)))
+
+        class Inner(LoopSpec):
+            """for ref_idx in range(1, max_ref_steps + 1): the sequential deletion pass of one hypothesis position"""
+
+            def run(self, I, s, f):
+                if "k" not in st:
+                    raise ip.Unsupported("the deletion pass is reached outside an iteration of the hypothesis loop")
+                k, rowk, misk, jk = st["k"], st["rowk"], st["misk"], st["jk"]
+                A = k + 1 <= HL0  # the column k + 1 exists for the skolem element (otherwise the pass's results are discarded)
+                pre_row, pre_mis = ip.local(f, "row"), ip.local(f, "mistakes")
+                pre_row_e, pre_mis_e = pre_row.elem, pre_mis.elem
+                PRE = lambda t_e, rr: ip.to_z3(t_e(rr, N0))
+                jn = k + 1
+
+                def inv_at(row, mis, i, rr):
+                    return z3.Implies(z3.And(A, 0 <= rr, rr <= R), z3.And(
+                        z3.Implies(rr < i, fin(row, mis, rr, jn)),
+                        z3.Implies(rr >= i, z3.And(val(row, rr) == PRE(pre_row_e, rr), val(mis, rr) == PRE(pre_mis_e, rr)))))
+
+                it = I.eval(s.iter, f)
+                I.ex.oblige("del_pass.range", z3.And(ip.to_z3(it.lo) == 1, ip.to_z3(it.hi) == R + 1, ip.to_z3(it.step) == 1))
+                # entry: position 0 is final (first row of the table), everything else as on entry
+                for x in (SPEC_AT(N0, z3.IntVal(0), jn), E_AT(z3.IntVal(0), jn), E_AT(z3.IntVal(0), jk), fin_at(rowk, misk, z3.IntVal(0), jk)):
+                    I.ex.instance(x)
+                I.ex.oblige("del_pass.init", inv_at(pre_row, pre_mis, z3.IntVal(1), R0))
+                ROWI = stn._fresh("row_in_pass", z3.IntSort(), z3.IntSort(), z3.RealSort())
+                MISI = stn._fresh("mistakes_in_pass", z3.IntSort(), z3.IntSort(), z3.RealSort())
+                f.locals["row"] = stn.ST((R + 1, N), lambda a, b: ROWI(ip.to_z3(a), ip.to_z3(b)), "float")
+                f.locals["mistakes"] = stn.ST((R + 1, N), lambda a, b: MISI(ip.to_z3(a), ip.to_z3(b)), "float")
+                rowi, misi = f.locals["row"], f.locals["mistakes"]
+                rowi_e, misi_e = rowi.elem, misi.elem
+                snap_row = stn.ST((R + 1, N), rowi_e, "float")
+                snap_mis = stn.ST((R + 1, N), misi_e, "float")
+                rr_ = z3.Int("r_inv")
+                if I.ex.choose(2) == 0:
+                    i = I.ex.fresh("int", "ref_idx")
+                    I.ex.assume(z3.And(1 <= i, i <= R))
+                    I.ex.assume(z3.ForAll([rr_], inv_at(snap_row, snap_mis, i, rr_)))
+                    for rr in (i, i - 1, R0):
+                        I.ex.instance(inv_at(snap_row, snap_mis, i, rr))
+                    # what the proof reads: the table and the edit bounds at (i, k + 1) and its three predecessors' facts; the
+                    # outer invariant at the reference positions i and i - 1 of the previous column
+                    for x in (SPEC_AT(N0, i, jn), E_AT(i, jn), fin_at(rowk, misk, i, jk), fin_at(rowk, misk, i - 1, jk)):
+                        I.ex.instance(x)
+                    I.assign(s.target, i, f)
+                    I.exec_block(s.body, f)
+                    I.ex.oblige("del_pass.step", inv_at(ip.local(f, "row"), ip.local(f, "mistakes"), i + 1, R0))
+                    raise PathAbort()
+                I.ex.assume(z3.ForAll([rr_], inv_at(snap_row, snap_mis, R + 1, rr_)))
+                I.ex.instance(inv_at(snap_row, snap_mis, R + 1, R0))
+
+        loops = {("_string_matching", 0): Outer("dp.loop", None, None, None, {}), ("_string_matching", 1): Inner("del_pass", None, None, None, {})}
+
+        def post(p):
+            if not api.returns(p) or not hasattr(p.value, "elem"):
+                return False
+            e = ip.to_z3(p.value.elem(N0))
+            lo, hi, rl = EMIN(RL0, HL0), EMAX(RL0, HL0), z3.ToReal(RL0)
+            if not norm:
+                return [("error_count_between_fewest_and_most_edits_of_min_cost_alignments", z3.And(lo <= e, e <= hi))]
+            return [("error_rate_between_fewest_and_most_edits_over_reference_length",
+                     z3.If(RL0 == 0, e == z3.If(HL0 > 0, z3.RealVal(1), z3.RealVal(0)), z3.And(lo <= e * rl, e * rl <= hi)))]
+
+        pre = [INS > 0, DEL > 0, SUB > 0, z3.Not(z3.And(INS == DEL, DEL == SUB)), R >= 0, H >= 0, N >= 1, 0 <= N0, N0 < N, 0 <= R0, R0 <= R,
+               HL0 == HLs(N0), RL0 == RLs(N0)] + SPEC + ESPEC
+        return VC("C02.P.edits_between_fewest_and_most", name, M, "_string_matching", thunk, pre=pre, posts=[("final", post)], loops=loops,
+                  inputs={"R": R, "H": H, "N": N}, timeout_ms=30000,
+                  assumptions=["Wagner-Fischer recurrence = minimum over edit scripts (definition of D); Emin / Emax used through the consequences of their definition as min / max over the optimal moves (the same definition as contracts/strspec.py::edits_tables)",
+                               "tensors as index functions with in-place stores as functional updates (vf/pyvc/symtensor.py); any() contract; lin_c abstraction of index * cost; float arithmetic treated as real arithmetic, x / 0 arbitrary",
+                               "both loop-invariant rules and the induction over the reference index applied outside the solver; callee contract of _lens_from_eos (C01.P.lens_first_eos)",
+                               "unequal costs (the equal-cost shortcut is C01.P.dp's and, for the edit counts, the S rung's); exclude_last / prefix variants: S rung"])
+
+    return [make_vc(True, False, False, False), make_vc(False, False, False, False), make_vc(True, True, True, False), make_vc(True, False, False, True)]
